@@ -172,31 +172,54 @@ impl<'b, 'tx> Iterator for Cursor<'b, 'tx> {
     fn next(&mut self) -> Option<Self::Item> {
         if self.stack.is_empty() {
             self.seek_first();
-        } else if self.next_called {
-            loop {
-                {
-                    let b = self.bucket.borrow();
-                    if b.deleted {
-                        panic!("Cannot get data from a deleted bucket.");
-                    }
-                    let elem = self.stack.last_mut().unwrap();
-                    let page_node = b.page_node(elem.id);
-                    if elem.index >= (page_node.len() - 1) {
-                        if self.stack.len() == 1 {
-                            return None;
-                        }
-                        self.stack.pop();
-                        continue;
-                    } else {
-                        elem.index += 1;
-                    }
-                }
-                self.seek_first();
-                break;
-            }
+        } else if self.next_called && !self.advance() {
+            return None;
         }
         self.next_called = true;
+        // Skip over nodes that were emptied by deletes earlier in this transaction.
+        while self.at_empty_node() {
+            if !self.advance() {
+                return None;
+            }
+        }
         self.current()
+    }
+}
+
+impl<'b, 'tx> Cursor<'b, 'tx> {
+    // Moves the cursor to the next element, climbing out of exhausted nodes and
+    // descending to the first element of the next subtree.
+    // Returns false if there are no more elements in the bucket.
+    fn advance(&mut self) -> bool {
+        loop {
+            {
+                let b = self.bucket.borrow();
+                if b.deleted {
+                    panic!("Cannot get data from a deleted bucket.");
+                }
+                let elem = self.stack.last_mut().unwrap();
+                let page_node = b.page_node(elem.id);
+                if elem.index + 1 >= page_node.len() {
+                    if self.stack.len() == 1 {
+                        return false;
+                    }
+                    self.stack.pop();
+                    continue;
+                } else {
+                    elem.index += 1;
+                }
+            }
+            self.seek_first();
+            return true;
+        }
+    }
+
+    fn at_empty_node(&self) -> bool {
+        let b = self.bucket.borrow();
+        match self.stack.last() {
+            Some(elem) => b.page_node(elem.id).len() == 0,
+            None => false,
+        }
     }
 }
 
